@@ -27,6 +27,27 @@ CLAIMED = {
         note="Trusts RefTape as the judge of well-formedness. Apart from the re-emit path the bytes of one file do not depend on history; the evidence file says so.",
         ref="DESIGN.md section 5 C14",
     ),
+    "C07": dict(
+        engine="store-sim",
+        technique="deterministic simulation: seeded histories of tool adds, simulated-peer (RefDisk) SAVEs and KILLs with their own allocation policies and end-of-file conventions, restarts from durable bytes and file_util invocations on one disk image under a per-run permuted granule fill order; after every op the real reader's listing is compared with a reference model",
+        text="Seeded search over histories (tool-only, peer-only-then-list, mixed) on a 35-track image, fill order as a per-run knob; invariant after every op: tool listing == model in directory order (name, extension, type, ASCII flag, load/exec for ML, data). Lengths biased to +-10 of sector and granule multiples of the stored stream.",
+        note="Trusts RefDisk (validated at start-up on golden vectors, round trips and hand-corrupted images) and SimFS/SimProc. Duplicate names and multi-segment ML files are out of scope.",
+        ref="DESIGN.md section 5 C07",
+    ),
+    "C08": dict(
+        engine="store-sim",
+        technique="deterministic simulation: same disk histories as C07; in-run invariant checked after every tool write = independent fsck by the simulated peer (chains, disjointness, orphans, implied length, chain-order ML stream, no byte changed outside allocated granules/table/directory relative to the pre-write image) plus chain-following load == model",
+        text="Seeded search over tool-only and mixed histories under all fill orders; RefDisk.fsck must be clean after every op whose writer was the tool (API add, or file_util --append which rebuilds the image). Images left dirty by a refused add are never saved and are not judged.",
+        note="Trusts RefDisk.fsck, each clause of which is shown to fire on a hand-corrupted image at start-up.",
+        ref="DESIGN.md section 5 C08",
+    ),
+    "C15": dict(
+        engine="store-sim",
+        technique="deterministic simulation: medium-full fault profile - seeded histories that drive one disk image to granule exhaustion (small, large, mixed files, peer prefill and KILL holes, restarts, permuted fill order), checked against a granule/slot accounting model read off the image by the simulated peer; failing host-level appends checked on the I/O event trace",
+        text="Seeded search over fill-to-full histories; before each add F free granules and S free slots are read by RefDisk; a file needing n<=F granules and a slot must be stored with exactly n (n+1 for exact multiples) previously free granules and one slot, anything else must raise; a failing file_util --to_dsk --append shows no TRUNCATE/WRITE on the target.",
+        note="Exact-multiple-with-exactly-n-free is accepted either way; full 72-slot exhaustion is unreachable on a consistent image (68 granules) and is not decided.",
+        ref="DESIGN.md section 5 C15",
+    ),
 }
 
 NOT_APPLICABLE = {
